@@ -402,18 +402,23 @@ pub fn classify_hang(r: &ExecResult) -> Option<Finding> {
                         || r.log.iter().rev().find(|rec| rec.task == s.task && matches!(rec.ev, Ev::Call { .. })).map(|rec| matches!(rec.ev, Ev::Call { op: "iter_next", .. })).unwrap_or(false)) =>
             {
                 // the iterator this client is reading was created after stop()/close()?
+                // (a task may hold several iterators: go by the id of the pending next())
+                let id = r.log.iter().rev().find_map(|rec| match (&rec.ev, rec.task == s.task) {
+                    (Ev::Call { op: "iter_next", a }, true) => Some(*a),
+                    _ => None,
+                });
                 let created = r
                     .log
                     .iter()
                     .enumerate()
-                    .filter(|(_, rec)| rec.task == s.task && matches!(&rec.ev, Ev::Ret { op: "iter", .. }))
+                    .filter(|(_, rec)| rec.task == s.task && matches!(&rec.ev, Ev::Ret { op: "iter", a, .. } if Some(*a) == id))
                     .map(|(i, _)| i)
                     .last();
                 let call = r
                     .log
                     .iter()
                     .enumerate()
-                    .filter(|(_, rec)| rec.task == s.task && matches!(&rec.ev, Ev::Call { op: "iter", .. }))
+                    .filter(|(_, rec)| rec.task == s.task && matches!(&rec.ev, Ev::Call { op: "iter", a } if Some(*a) == id))
                     .map(|(i, _)| i)
                     .last();
                 match (call, created) {
